@@ -316,6 +316,47 @@ def run_cases(tag, imports, cases, defs='', shard=300):
     return sorted(failing)
 
 
+def run_groups(tag, imports, groups, shard=150):
+    """groups: list of (defs, [bool exprs]); names inside must already be unique per group.
+    Returns a set of (group index, expr index) that evaluated to false."""
+    if not groups:
+        return set()
+    from concurrent.futures import ThreadPoolExecutor
+    d = os.path.join(WORK, 'cases', tag)
+    shutil.rmtree(d, ignore_errors=True)
+    os.makedirs(d)
+    files = []
+    index = []   # global case number -> (group, expr)
+    for k in range(0, len(groups), shard):
+        fn = os.path.join(d, 'g%04d.v' % (k // shard))
+        with open(fn, 'w') as f:
+            f.write('From Coq Require Import ZArith List String SpecFloat.\n')
+            f.write('From SSJ Require Import F64 PyNum CaseFmt %s.\n' % ' '.join(imports))
+            f.write('Import ListNotations.\nOpen Scope string_scope.\nOpen Scope Z_scope.\n')
+            lines = []
+            for gi in range(k, min(k + shard, len(groups))):
+                defs, exprs = groups[gi]
+                f.write(defs + '\n')
+                for ei, e in enumerate(exprs):
+                    lines.append(' (%d%%nat, %s)' % (len(index), e))
+                    index.append((gi, ei))
+            f.write('Definition cases_ : list (nat * bool) := [\n' + ';\n'.join(lines) + '\n].\n')
+            f.write('Eval vm_compute in (failing cases_).\n')
+        files.append(fn)
+    bad = set()
+    with ThreadPoolExecutor(max_workers=NPROC) as ex:
+        for fn, rc, out in ex.map(_coqc_one, files):
+            if rc != 0:
+                raise RuntimeError('case file %s does not evaluate:\n%s' % (fn, out[-3000:]))
+            m = re.search(r'=\s*\[(.*?)\]\s*:\s*list nat', out, re.S)
+            if not m:
+                raise RuntimeError('cannot parse coqc output for %s:\n%s' % (fn, out[-2000:]))
+            for t in re.findall(r'\d+', m.group(1).replace('%nat', '')):
+                bad.add(index[int(t)])
+    shutil.rmtree(d, ignore_errors=True)
+    return bad
+
+
 def coq_eval(imports, expr, defs=''):
     """Evaluate one expression with vm_compute and return Coq's printed answer (diagnostics)."""
     d = os.path.join(WORK, 'eval')
